@@ -4,8 +4,28 @@
 def setup(register, COMMON_TB):
     register(
         "C13", coq="C13", pkg="./internal/mode/static/", test="TestVerifC13",
-        rule="placeholder",
-        trusted_base=COMMON_TB,
-        assumptions=[],
+        rule="resolve cases (NGINX OSS): non-trivial = at least 2 slices with endpoints and at least 2 resolved endpoints; "
+             "plus histories: non-trivial = at least 2 EndpointsOnlyChange batches of which at least one made the Plus API "
+             "add or delete a server; distinct = distinct (input, observed output)",
+        trusted_base=COMMON_TB + [
+            "environment fakes: controller-runtime fake client carrying the real field index (index.ServiceNameIndexFunc) stands for the "
+            "API server/cache; a stateful fake NGINX Plus (loads upstream blocks of the generated files on HUP, keeps the servers of an "
+            "upstream with a `state` file across reloads, serves the upstream REST endpoints; server strings stored verbatim) reached "
+            "through the real nginx-plus-go-client over an in-memory http.RoundTripper; process handler/verifier that make a HUP an "
+            "immediate successful reload",
+            "the change type of a batch (ClusterStateChange / EndpointsOnlyChange) is scripted through the counterfeiter fake of "
+            "state.ChangeProcessor and the graph is hand-built (one HTTPRoute rule / TLSRoute per referenced Service port); that the real "
+            "ChangeProcessor classifies batches that way is C01's subject",
+            "upstream blocks are read back from generated files with a regular expression (upstream NAME { ... server X; ... state F; })",
+            "modelled, not verified: NGINX itself; nginx-plus-go-client (its Update*Servers is modelled as add-missing-then-delete-unwanted "
+            "and runs for real in the harness); Plus with zero endpoints leaves an upstream without servers (NGINX answers 502) - not claimed",
+        ],
+        assumptions=[
+            "wf_ports for the declarative reading of findPort (unique port names, nil port only as the single entry): API validation "
+            "and the EndpointSlice controller guarantee it; outside it only soundness is checked (theorems *_partial)",
+            "no Plus API / reload faults are injected (C12 covers reload failures)",
+            "Service name and namespace non-empty, Service port non-zero (Resolve panics otherwise; the graph never builds such a BackendRef)",
+            "server strings of distinct endpoints are distinct (NoDup (map plus_server eps) is hypothesis wf-free only through NoDup srv of NGINX's own lists)",
+        ],
         timeout={"quick": 900, "thorough": 7200},
     )
